@@ -768,13 +768,18 @@ public:
 
       int i;
 
+      int nnz = 0;
+
       for(i = 0; i < rowSize && i < max(); i++)
       {
-         m_elem[i].val = rowValues[i];
-         m_elem[i].idx = rowIndices[i];
+         m_elem[nnz].val = rowValues[i];
+         m_elem[nnz].idx = rowIndices[i];
+
+         if(m_elem[nnz].val != 0)
+            ++nnz;
       }
 
-      set_size(i);
+      set_size(nnz);
 
       return *this;
    }
